@@ -87,6 +87,7 @@ type Exec struct {
 	pcNow  string
 	disabledAuto map[string]bool
 	locals []localObj
+	ifaceStatic map[string]Val // fresh interface constant -> statically known boxed value
 }
 
 func newExec(L *Loader, fn *ssa.Function, spec *FuncSpec) *Exec {
@@ -99,6 +100,7 @@ func newExec(L *Loader, fn *ssa.Function, spec *FuncSpec) *Exec {
 		}
 	}
 	e.pcNow = "true"
+	e.ifaceStatic = map[string]Val{}
 	e.prelude()
 	return e
 }
@@ -616,7 +618,9 @@ func (e *Exec) box(v Val, ifaceT types.Type) Val {
 		e.assume(mkEq(app("iref", n), ls[0]))
 	}
 	vc := v
-	return Val{T: ifaceT, S: n, Dyn: T, DynV: &vc}
+	res := Val{T: ifaceT, S: n, Dyn: T, DynV: &vc}
+	e.ifaceStatic[n] = res
+	return res
 }
 
 func (e *Exec) unbox(x Val, T types.Type) Val {
